@@ -4,8 +4,11 @@ import (
 	"encoding/json"
 	"flag"
 	"fmt"
+	"go/ast"
+	"go/types"
 	"os"
 	"path/filepath"
+	"regexp"
 	"runtime"
 	"sort"
 	"strings"
@@ -357,7 +360,72 @@ func writeJSON(path string, v any) error {
 	return os.WriteFile(path, append(b, '\n'), 0o644)
 }
 
+// cmdLocals prints, for every function contract, the `local` declarations of
+// the local variables its loop / hint / onappend clauses mention.
+func cmdLocals() {
+	P, err := LoadProg("/repo", filepath.Join(verifDir(), "spec"))
+	if err != nil {
+		fmt.Println(err)
+		os.Exit(2)
+	}
+	idRe := regexp.MustCompile(`[A-Za-z_][A-Za-z0-9_]*`)
+	for _, n := range sortedKeys(P.Specs.Contracts) {
+		c := P.Specs.Contracts[n]
+		f := P.Funcs[n]
+		if f == nil || f.Syntax() == nil {
+			continue
+		}
+		used := map[string]bool{}
+		add := func(cs []*Clause) {
+			for _, cl := range cs {
+				for _, id := range idRe.FindAllString(cl.Src, -1) {
+					used[id] = true
+				}
+			}
+		}
+		add(c.Hints)
+		add(c.OnAppend)
+		add(c.Invs)
+		if len(used) == 0 {
+			continue
+		}
+		params := map[string]bool{}
+		for _, p := range f.Params {
+			params[p.Name()] = true
+		}
+		var info *types.Info
+		for _, pk := range P.Pkgs {
+			if pk.Types == f.Pkg.Pkg {
+				info = pk.TypesInfo
+			}
+		}
+		if info == nil {
+			continue
+		}
+		found := map[string]string{}
+		ast.Inspect(f.Syntax(), func(nd ast.Node) bool {
+			if id, ok := nd.(*ast.Ident); ok {
+				if obj, ok := info.Defs[id].(*types.Var); ok && obj != nil && !obj.IsField() && used[id.Name] && !params[id.Name] {
+					found[id.Name] = typeStr(obj.Type())
+				}
+			}
+			return true
+		})
+		if len(found) == 0 {
+			continue
+		}
+		fmt.Printf("%s %s\n", c.File, n)
+		for _, k := range sortedKeys(found) {
+			fmt.Printf("//@   local %s %s\n", k, found[k])
+		}
+	}
+}
+
 func init() {
+	if len(os.Args) > 1 && os.Args[1] == "locals" {
+		cmdLocals()
+		os.Exit(0)
+	}
 	if len(os.Args) > 2 && os.Args[1] == "ssa" {
 		P, err := LoadProg("/repo", filepath.Join(verifDir(), "spec"))
 		if err != nil {
